@@ -71,8 +71,12 @@ func NewGeneratorWithOptions(protoPackage, indir, outdir string, opts *options.O
 		cachedBookParsers: make(map[string]*tableParser),
 	}
 
+	// The metasheet name is process-wide state: always (re)set it, so that a
+	// generator without a custom name is not affected by an earlier generator.
 	if opts.Proto.Input.MetasheetName != "" {
 		book.SetMetasheetName(opts.Proto.Input.MetasheetName)
+	} else {
+		book.SetMetasheetName(book.DefaultMetasheetName)
 	}
 
 	return gen
